@@ -1,6 +1,7 @@
 package clover
 
 import (
+	d "github.com/ostafen/clover/v2/document"
 	"github.com/ostafen/clover/v2/query"
 	"github.com/ostafen/clover/v2/zzverif/nd"
 	"github.com/ostafen/clover/v2/zzverif/ref"
@@ -45,5 +46,67 @@ func H_C01_cmp_num() {
 	}
 	a := buildState(e, cfg)
 	checkFindAll(e, a, genCmpLeaf("c", "x", qNumLit), "C01.cmp")
+	nd.Reach("end")
+}
+
+//verif:harness props=C01,C06,C02 tier=quick bounds="history of length 2: a 2-document collection (first: x absent/nil/-1.5, second: x=0) with or without an index on x created before or after the data, then one write that changes x of the first document (UpdateById, Update by criteria, ReplaceById, Save, DeleteById+Insert) to a symbolic float64 or removes the field, then FindAll with a comparison on x (symbolic literal) and a sort on x: every live matching document exactly once, with the values last written"
+func H_C01_after_write() {
+	e := openEnv()
+	cfg := stateCfg{nDocs: 2, fields: func(i int) map[string]interface{} {
+		if i == 1 {
+			return map[string]interface{}{"x": 0.0}
+		}
+		return cloneFields([]map[string]interface{}{{}, {"x": nil}, {"x": -1.5}}[nd.Choice("d0.x", 3)])
+	}}
+	if nd.Choice("index.x", 2) == 1 {
+		cfg.idxField = []string{"x"}
+	}
+	a := buildState(e, cfg)
+	c := a.coll("c")
+	target := c.doc(poolIds[0])
+	newFields := map[string]interface{}{"_id": poolIds[0]}
+	if nd.Choice("new.present", 2) == 1 {
+		newFields["x"] = normFloat("new.x")
+	}
+	var err error
+	w := nd.Choice("write", 5)
+	wholeDoc := w >= 2
+	switch w {
+	case 0:
+		if _, has := newFields["x"]; !has {
+			nd.Assume(false) // UpdateById below only sets fields
+		}
+		err = e.db.UpdateById("c", poolIds[0], func(doc *d.Document) *d.Document {
+			n := doc.Copy()
+			n.Set("x", newFields["x"])
+			return n
+		})
+	case 1:
+		if _, has := newFields["x"]; !has {
+			nd.Assume(false)
+		}
+		err = e.db.Update(query.NewQuery("c").Where(query.Field("_id").Eq(poolIds[0])), map[string]interface{}{"x": newFields["x"]})
+	case 2:
+		err = e.db.ReplaceById("c", poolIds[0], mkDoc(newFields))
+	case 3:
+		err = e.db.Save("c", mkDoc(newFields))
+	case 4:
+		err = e.db.DeleteById("c", poolIds[0])
+		if err == nil {
+			err = e.db.Insert("c", mkDoc(newFields))
+		}
+	}
+	nd.Assert("C01.history.write-ok", err == nil)
+	if wholeDoc {
+		target.fields = newFields // ReplaceById / Save / Delete+Insert replace the whole document
+	} else {
+		target.fields["x"] = newFields["x"]
+	}
+	crit := genCmpLeaf("c", "x", opLit)
+	checkFindAll(e, a, crit, "C01.history")
+	docs, serr := e.db.FindAll(query.NewQuery("c").Sort(query.SortOption{Field: "x", Direction: nd.Int("dir")}))
+	nd.Assert("C01.history.sorted-once-each", serr == nil && sameDocSet(docs, c.docs))
+	n, cerr := e.db.Count(query.NewQuery("c").Where(buildCrit(crit)))
+	nd.Assert("C09.history.count", cerr == nil && n == len(c.matching(crit)))
 	nd.Reach("end")
 }
